@@ -349,6 +349,17 @@ Definition tree_text (t : tree) : str := match t with Node _ x _ => x end.
 Definition tree_kids (t : tree) : list tree := match t with Node _ _ k => k end.
 Definition is_rule (t : tree) (name : string) : bool := str_eqb (tree_rule t) (ss name).
 
+(* all-or-nothing map *)
+Definition map_opt {A B} (f : A -> option B) : list A -> option (list B) :=
+  fix go (l : list A) : option (list B) :=
+    match l with
+    | [] => Some []
+    | k :: l' => match f k, go l' with
+                 | Some x, Some xs => Some (x :: xs)
+                 | _, _ => None
+                 end
+    end.
+
 Section Convert.
   Variable ucls : uclass -> N -> bool.
 
@@ -384,14 +395,7 @@ Section Convert.
         | _ => None
         end
       else if str_eqb r (ss "compound") then
-        let go := fix go (l : list tree) : option (list lterm) :=
-          match l with
-          | [] => Some []
-          | k :: l' => match lterm_of_tree k, go l' with
-                       | Some x, Some xs => Some (x :: xs)
-                       | _, _ => None
-                       end
-          end in
+        let go := map_opt lterm_of_tree in
         match txt with
         | 40 :: _ =>   (* "(" connecter "," term ... ")" *)
             match kids with
